@@ -1145,24 +1145,34 @@ func ruleC03R9(r *Run) {
 		r.Check("(*repeat).reject#give-up", fn.Pos(), okPanic, "too many rejections below the minimum count raise invalid data", "reject no longer raises invalidData when the minimum count cannot be reached")
 	}
 	if fn := r.MustFn("(*repeat).more"); fn != nil {
-		// pCont phi: 1 under count < minCount, 0 under count >= maxCount
+		// the continue probability (a phi, or one coin call per case): the constant 1 below minCount, the constant 0 at maxCount
+		okMin, okMax, seenMin, seenMax := true, true, false, false
+		var pos token.Pos
+		nAlt := 0
 		for _, cs := range p.callsTo(fn, "flipBiasedCoin") {
-			alts := p.alternatives(cs.Arg(1), 0)
-			if len(alts) < 2 {
-				r.Fail("(*repeat).more#pCont", cs.Instr.Pos(), "continue probability is not a choice between forced and free: "+p.expr(cs.Arg(1)))
-				continue
-			}
-			okMin, okMax := false, false
-			for _, a := range alts {
+			pos = cs.Instr.Pos()
+			for _, a := range p.alternatives(cs.Arg(1), 0) {
+				nAlt++
+				facts := append(append([]rel{}, a.Facts...), p.facts(cs.Instr)...)
 				c, isC := p.resolve(a.Val).(*ssa.Const)
-				if holds(a.Facts, "$r.count", "<", "$r.minCount") {
-					okMin = isC && p.expr(c) == "1"
-				} else if holds(a.Facts, "$r.count", ">=", "$r.maxCount") {
-					okMax = isC && p.expr(c) == "0"
+				if holds(facts, "$r.count", "<", "$r.minCount") {
+					seenMin = true
+					if !(isC && p.expr(c) == "1") {
+						okMin = false
+					}
+				} else if holds(facts, "$r.count", ">=", "$r.maxCount") {
+					seenMax = true
+					if !(isC && p.expr(c) == "0") {
+						okMax = false
+					}
 				}
 			}
-			r.Check("(*repeat).more#below-min-continues", cs.Instr.Pos(), okMin, "below minCount the continue probability is the constant 1", "below minCount more() does not force continuation: collections can be shorter than their minimum")
-			r.Check("(*repeat).more#at-max-stops", cs.Instr.Pos(), okMax, "at maxCount the continue probability is the constant 0", "at maxCount more() does not force a stop: collections can exceed their maximum")
+		}
+		if nAlt < 2 {
+			r.Fail("(*repeat).more#pCont", pos, "continue probability is not a choice between forced and free")
+		} else {
+			r.Check("(*repeat).more#below-min-continues", pos, okMin && seenMin, "below minCount the continue probability is the constant 1", "below minCount more() does not force continuation: collections can be shorter than their minimum")
+			r.Check("(*repeat).more#at-max-stops", pos, okMax && seenMax, "at maxCount the continue probability is the constant 0", "at maxCount more() does not force a stop: collections can exceed their maximum")
 		}
 	}
 	if fn := r.MustFn("flipBiasedCoin"); fn != nil {
